@@ -249,3 +249,8 @@ def validate(run, experiments, sc, label, cfg="GPStoreTrace.cfg", consts=None):
             if x.xid not in drift and x.xid not in verdicts:
                 drift[x.xid] = {"event": None, "prev": None, "note": "not validated: too many experiments left the model"}
     return verdicts, drift
+
+
+def parallel(fn, jobs, workers=None):
+    with ThreadPoolExecutor(max_workers=workers or min(12, vlib.NCPU)) as ex:
+        return list(ex.map(lambda a: fn(*a), jobs))
